@@ -97,7 +97,14 @@ func (s *Sim) onCommit(li *ledgerInst, rows []*Row) {
 // process would die on every write; the persisted log would stay "clean" only because
 // nothing can be written any more. The engine's obligation is on what it hands over.
 func (s *Sim) checkHandOff(li *ledgerInst, logs []*ledger.ChainedLog) {
-	if !s.wants("C05") || len(logs) == 0 {
+	prop := "C05"
+	if !s.wants("C05") {
+		if s.target != "C14" {
+			return
+		}
+		prop = "C14x" // judged by the C14 engine: does it go away when the previews are removed?
+	}
+	if len(logs) == 0 {
 		return
 	}
 	c := s.chain[li.idx]
@@ -113,7 +120,7 @@ func (s *Sim) checkHandOff(li *ledgerInst, logs []*ledger.ChainedLog) {
 			continue
 		}
 		if l.ID.Cmp(big.NewInt(want+int64(i))) != 0 {
-			s.violate("C05", "handed-log-id-not-sequential", fmt.Sprintf("%s: the engine hands the store a batch whose log #%d carries id %s while %d entries are persisted (expected id %d)", li.name, i, l.ID, len(li.m.Rows), want+int64(i)), feat...)
+			s.violate(prop, "handed-log-id-not-sequential", fmt.Sprintf("%s: the engine hands the store a batch whose log #%d carries id %s while %d entries are persisted (expected id %d)", li.name, i, l.ID, len(li.m.Rows), want+int64(i)), feat...)
 			return
 		}
 		var txid *big.Int
@@ -129,7 +136,7 @@ func (s *Sim) checkHandOff(li *ledgerInst, logs []*ledger.ChainedLog) {
 		}
 		if txid != nil {
 			if txid.Cmp(big.NewInt(nextTx)) != 0 {
-				s.violate("C05", "handed-txid-not-sequential", fmt.Sprintf("%s: the engine hands the store log %s carrying transaction id %s, expected %d", li.name, l.ID, txid, nextTx), feat...)
+				s.violate(prop, "handed-txid-not-sequential", fmt.Sprintf("%s: the engine hands the store log %s carrying transaction id %s, expected %d", li.name, l.ID, txid, nextTx), feat...)
 				return
 			}
 			nextTx++
@@ -139,6 +146,9 @@ func (s *Sim) checkHandOff(li *ledgerInst, logs []*ledger.ChainedLog) {
 
 func (s *Sim) checkChain(li *ledgerInst, c *chainState, e *Entry) {
 	if !s.wants("C05") {
+		if e.Tx != nil {
+			c.nextTx = new(big.Int).Add(e.Tx.ID, big.NewInt(1)).Int64()
+		}
 		return
 	}
 	r := e.Row
@@ -719,6 +729,7 @@ func (s *Sim) finalOracles() {
 		s.finalC10(li, name, c)
 		s.finalC11(li, name, c)
 		s.finalC14(li, name, c)
+		s.finalC16(li, name, c)
 		if s.wants("C13") {
 			s.auditLedger(li, "end-of-run")
 		}
@@ -1017,6 +1028,58 @@ func (s *Sim) finalC14(li int, name string, c *chainState) {
 		}
 		if es := c.byMarker[o.Marker]; len(es) > 0 && (o.Op.Kind == "script" || o.Op.Kind == "postings" || o.Op.Kind == "setmeta") {
 			s.violate("C14", "preview-persisted", fmt.Sprintf("%s: preview request %s left entry %d in the log", name, o.Name, es[0].Idx), "kind="+o.Op.Kind)
+		}
+	}
+}
+
+// finalC16: "every persisted change is published at least once". Judged for generations that
+// ended in an orderly way (every request answered, no crash): each entry committed by such a
+// generation must have been described by an event -- whatever its request was told (a request
+// answered with an error, e.g. after a cancellation, may still have its entry persisted).
+func (s *Sim) finalC16(li int, name string, c *chainState) {
+	if !s.wants("C16") {
+		return
+	}
+	orderly := map[int]bool{}
+	for _, g := range s.gens {
+		orderly[g.Idx] = !g.crashed && g.bootDone
+	}
+	// requests of that generation must all have been answered
+	for _, o := range s.ops {
+		if o.Invoked && !o.Returned {
+			orderly[o.Gen] = false
+		}
+	}
+	delPublished, delEntries := map[string]int{}, map[string][]*Entry{}
+	for _, e := range c.entries {
+		if e.Row.Gen < 0 || !orderly[e.Row.Gen] {
+			continue
+		}
+		if e.Type == "DELETE_METADATA" {
+			delEntries[e.MatchKey] = append(delEntries[e.MatchKey], e)
+			continue
+		}
+		if e.Published == 0 {
+			who := "?"
+			if o := s.opByMarker(e.Marker); o != nil {
+				who = o.Name + " (" + o.outcomeOrUnanswered() + ")"
+			}
+			s.violate("C16", "committed-change-never-published", fmt.Sprintf("%s: entry %d (%s, request %s) was committed by a generation that ended in an orderly way, yet no event ever described it", name, e.Idx, e.Type, who), "type="+e.Type)
+		}
+	}
+	for _, e := range c.entries {
+		if e.Type == "DELETE_METADATA" {
+			delPublished[e.MatchKey] += e.Published
+		}
+	}
+	keys := make([]string, 0, len(delEntries))
+	for k := range delEntries {
+		keys = append(keys, k)
+	}
+	sort.Strings(keys)
+	for _, k := range keys {
+		if delPublished[k] < len(delEntries[k]) {
+			s.violate("C16", "committed-change-never-published", fmt.Sprintf("%s: %d DELETE_METADATA entr(y/ies) for %q committed by orderly generations but only %d event(s) described them", name, len(delEntries[k]), k, delPublished[k]), "type=DELETE_METADATA")
 		}
 	}
 }
